@@ -396,3 +396,20 @@ fn rustls_client_config(ssl_config: &SslConfig) -> Result<ClientConfig> {
     #[cfg(not(debug_assertions))]
     Ok(config)
 }
+
+#[cfg(feature = "verif-hooks")]
+pub mod verif {
+    use super::*;
+
+    pub use super::transfer_tcp;
+    pub use super::transfer_udp;
+    pub use super::try_transfer_tcp;
+
+    pub async fn relay_tcp<I, O>(local_client: I, client_server: O) -> relay::Result
+    where
+        I: Sink<BytesMut, Error = anyhow::Error> + Stream<Item = Result<BytesMut>>,
+        O: Sink<BytesMut, Error = anyhow::Error> + Stream<Item = Result<BytesMut>>,
+    {
+        super::relay_tcp(local_client, client_server).await
+    }
+}
